@@ -35,6 +35,17 @@ theorem translated_convert_bitstring_to_int_eq (b : List Nat) (h : ∀ d ∈ b, 
       = (b.reverse.map digitChar).map (fun c => [c]) := map_strOfInt_digits b.reverse hr
   rw [e, join_singletons, intBase2_digits _ hr]
 
+/-- ON THE CODE AS IT IS NOW: the two conversions are NOT inverse to each other – `bitstring_to_tuple(tuple_to_bitstring(t))` is
+    `t` REVERSED.  Count strings (written by `tuple_to_bitstring`: position q = qubit q) and basis-index strings (read by
+    `bitstring_to_tuple`: qubit 0 last) are different conventions; the library never feeds one into the other, and C04's
+    `counts_key_position` / `tuple_of_index` are the statements for each. -/
+theorem translated_tuple_bitstring_roundtrip (t : List Nat) (h : ∀ d ∈ t, d < 10) :
+    Translated.bitstring_to_tuple (Translated.tuple_to_bitstring (t.map Int.ofNat)) = (t.reverse).map Int.ofNat := by
+  rw [translated_tuple_to_bitstring_eq t h]
+  unfold OQ.C04.tupleToBitstring
+  rw [translated_bitstring_to_tuple_eq t h]
+  rfl
+
 /-! non-vacuity -/
 example : Translated.bitstring_to_tuple ['1', '1', '0'] = [0, 1, 1] := by decide
 example : Translated.tuple_to_bitstring [0, 1, 1] = ['0', '1', '1'] := by decide
